@@ -264,6 +264,14 @@ def targeted_cases(r, base):
     add("cotool", tool, ["-j", "3", "-B"], [0] * 40)
     add("cotool1", tool, ["-j", "1", "-B"], [0] * 40)
     add("cotool-full", tool, ["-j", "2"], [3, 1, 4, 1, 5, 9, 2, 6] * 5)
+    # the same workspace cooked by two tasks (with and without sandbox)
+    for tag, argv, choices, fail in (("sbx", ["-j", "3", "--sandbox"], [0] * 60, []),
+                                     ("sbx2", ["-j", "2", "--sandbox"], [1, 0, 2, 1, 0, 3] * 10, []),
+                                     ("sbx-fail", ["-j", "3", "--sandbox", "-k"], [0] * 60, ["dev/build/x/1/workspace"])):
+        d = os.path.join(base, "t-%s" % tag)
+        roots = P.write_sandbox_project(d)
+        out.append({"name": "t-%s" % tag, "dir": d, "argv": roots + ["-A", "--download", "no"] + argv, "choices": choices,
+                    "fail": fail, "env_takes": 0, "makeflags": None, "spec": {"sandbox-project": True}})
     return out
 
 
@@ -388,6 +396,7 @@ def oracle_trace(o):
     held = 0            # tokens taken - tokens given back, from the acquire/release events
     events = []
     spawned_at = {}
+    last_got = {}
     fail_recorded_at = None
     pos = 0
     for it in o["trace"]:
@@ -404,14 +413,15 @@ def oracle_trace(o):
         k = e[0]
         if k == "start":
             p = e[1]
-            # 1. dependencies first
-            for s in bypath.get(p, []):
-                if graph[s]["valid"]:
-                    for d in graph[s]["deps"]:
-                        if graph[d]["valid"] and graph[d]["path"] not in finished_ok:
-                            out.append(("step-started-before-dependency-finished",
-                                        "script of %s started before its dependency %s finished successfully" % (p, graph[d]["path"])))
-                    break
+            # 1. dependencies first (of the step object the task cooks: workspace + sandbox)
+            sb = (o["tasks"][t] or {}).get("sb") if t < len(o["tasks"]) else None
+            cands = [s for s in bypath.get(p, []) if graph[s]["valid"] and graph[s]["sb"] == sb] or \
+                    [s for s in bypath.get(p, []) if graph[s]["valid"]]
+            for s in cands[:1]:
+                for d in graph[s]["deps"]:
+                    if graph[d]["valid"] and graph[d]["path"] not in finished_ok:
+                        out.append(("step-started-before-dependency-finished",
+                                    "script of %s started before its dependency %s finished successfully" % (p, graph[d]["path"])))
             # 2. once and exclusive
             if p in running:
                 out.append(("workspace-executed-concurrently", "two scripts run in %s at the same time" % p))
@@ -427,9 +437,9 @@ def oracle_trace(o):
                             "%d scripts running with %d jobs configured" % (len(running), jobs)))
             # 4. without keep-going a failure stops the build: a task created after the failure was recorded
             #    has to find `running` cleared before it can start a script
-            if not keep and fail_recorded_at is not None and spawned_at.get(t, -1) > fail_recorded_at and pos_ > fail_recorded_at:
+            if not keep and fail_recorded_at is not None and last_got.get(t, -1) > fail_recorded_at:
                 out.append(("build-continued-after-failure",
-                            "script of %s started by a task that was created after a failure had been recorded (no keep-going)" % p))
+                            "script of %s started by a task that obtained its job slot after a failure had been recorded (no keep-going)" % p))
         elif k == "end":
             p = e[1]
             running.discard(p)
@@ -439,6 +449,7 @@ def oracle_trace(o):
                 failed_paths.add(p)
         elif k == "got":
             held += 1
+            last_got[t] = pos_
         elif k == "rel":
             if e[1] is not None:
                 out.append(("release-raised" + ("-recursive-jobserver" if recursive else ""),
@@ -485,7 +496,7 @@ def oracle_trace(o):
         if s in exp:
             return exp[s]
         n = graph[s]
-        exp[s] = "%s(%s)" % (n["path"], ",".join(value(d) for d in n["deps"] if graph[d]["valid"]))
+        exp[s] = "%s(%s)" % (n["path"], ",".join(value(d) for d in n["bid"]))
         return exp[s]
     for p, content in (o.get("results") or {}).items():
         if p in finished_ok:
@@ -547,7 +558,8 @@ def sem_alone_run(args):
     """k tasks on n tokens: random acquire / release orders (several commands may be issued in the same
     loop iteration, so hand-overs in flight are exercised) and a child make that takes/returns tokens, on a
     real FIFO and a real asyncio loop.  Returns the recorded ops with the semaphore's state after each."""
-    repo, seed, recursive, n_tokens, k, nops = args
+    repo, seed, recursive, n_tokens, k, nops = args[:6]
+    script = list(args[6]) if len(args) > 6 and args[6] else []
     import asyncio
     import random
     import selectors
@@ -603,6 +615,23 @@ def sem_alone_run(args):
                 super()._run_once()
 
         def idle():
+            while script:
+                issued = False
+                for c in script.pop(0).split("+"):      # commands joined by + are issued in the same loop iteration
+                    if c == "take" and fion(rfd) > 0:
+                        state["env"].append(os.read(rfd, 1))
+                        log.append(["take", None, "ok", snap()])
+                    elif c == "ret" and state["env"]:
+                        os.write(wfd, state["env"].pop())
+                        log.append(["ret", None, "ok", snap()])
+                    elif c.startswith("acq:") and not blocked[int(c[4:])] and not holding[int(c[4:])] and not cmdq[int(c[4:])].done():
+                        cmdq[int(c[4:])].set_result("acq")
+                        issued = True
+                    elif c.startswith("rel:") and holding[int(c[4:])] and not blocked[int(c[4:])] and not cmdq[int(c[4:])].done():
+                        cmdq[int(c[4:])].set_result("rel")
+                        issued = True
+                if issued:
+                    return
             if state["ops"] <= 0:
                 # wind down: release everything that is owned, return the child's tokens
                 for i in range(k):
@@ -728,7 +757,8 @@ def sem_alone_run(args):
         end = {"pipe": fion(rfd), "holding": holding, "blocked": blocked, "complete": bool(finished and finished[0])}
         os.close(rfd)
         os.close(wfd)
-        return {"seed": seed, "recursive": recursive, "n": n_tokens, "k": k, "log": log, "end": end}
+        return {"seed": seed, "recursive": recursive, "n": n_tokens, "k": k, "log": log, "end": end,
+                "script": (list(args[6]) if len(args) > 6 and args[6] else None)}
     finally:
         shutil.rmtree(tmp, ignore_errors=True)
 
@@ -882,9 +912,25 @@ def real_oracle(spec, jobs, keep, fail, rc, log, d):
 _STATE = {}
 
 
+SEM_SCRIPTS = [
+    # the child make holds the only token, a task waits, the token comes back: the reader callback has to serve it
+    (False, 1, 2, ["take", "acq:0", "ret"]),
+    (True, 1, 3, ["acq:0", "take", "acq:1", "ret"]),
+    # two owners release in the same loop iteration while one task waits (hand-over in flight)
+    (True, 1, 3, ["acq:0", "acq:1", "acq:2", "rel:0+rel:1"]),
+    (False, 2, 3, ["acq:0", "acq:1", "acq:2", "rel:0+rel:1"]),
+    # hand-over followed by a fresh acquire before the waiter continues
+    (True, 0, 3, ["acq:0", "acq:1", "acq:2+rel:0"]),
+    (True, 0, 3, ["acq:0", "acq:1", "rel:0+acq:2"]),
+]
+
+
 def _sem_args(ctx, i):
     r = ctx.subrng("sem", i)
-    return (ctx.repo, "%d-%d" % (ctx.seed, i), i % 2 == 1, r.randrange(1, 4), r.randrange(2, 6), 40)
+    if i < len(SEM_SCRIPTS):
+        rec, n, k, script = SEM_SCRIPTS[i]
+        return (ctx.repo, "%d-%d" % (ctx.seed, i), rec, n, k, 12, script)
+    return (ctx.repo, "%d-%d" % (ctx.seed, i), i % 2 == 1, r.randrange(1, 4), r.randrange(2, 6), 40, None)
 
 
 def oracle(ctx):
@@ -1115,7 +1161,7 @@ def correspond(ctx):
             ctx.count("correspond", "semaphore-ops", n)
             if bad:
                 ctx.disagree("JobServerSemaphore on a real FIFO == Model.JobSem (result and state after every operation)",
-                             {"kind": "sem", "args": [c["seed"], c["recursive"], c["n"], c["k"], 40]}, bad[0], None)
+                             {"kind": "sem", "args": [c["seed"], c["recursive"], c["n"], c["k"], 40, c.get("script")]}, bad[0], None)
 
 
 def replay(ctx, case):
@@ -1128,7 +1174,10 @@ def replay(ctx, case):
         from gen import c06_projects as P
         c = dict(case["case"])
         d = os.path.join(ctx.tmp, "replay")
-        P.write_project(c["spec"], d)
+        if c["spec"].get("sandbox-project"):
+            P.write_sandbox_project(d)
+        else:
+            P.write_project(c["spec"], d)
         c["dir"] = d
         c["name"] = "replay"
         pool = ChildPool(ctx.repo, [c], ctx.tmp, 1)
